@@ -199,6 +199,11 @@ def stepOp (cs : ConnSt) (op : List String) (oracle : String) : Option StepOut :
   | ["send", _, _] => do
     let p â† parseDescr oracle
     fin (send c p)
+  -- the same packet through `checked_send` (the harness uses it only where the trait bounds admit
+  -- the type for the role): C11 requires exactly the behaviour of `send`
+  | ["send", _, _, "c"] => do
+    let p â† parseDescr oracle
+    fin (send c p)
   | ["recv", hx] => do
     let inp â† hexToBytes hx
     let o := parseRecvOracle oracle
@@ -356,7 +361,8 @@ def monitorCall (cfg : Cfg) (cmp : String) (m : MonSt) (name : String) (ln : Nat
     -- every call is total (C05); the flow-control account in particular "never wraps or panics" (C12):
     -- the harness is built with overflow checks, so a wrapping counter surfaces here
     let msg := s!"{here}: the implementation panicked in `{" ".intercalate (op.take 2)}`"
-    (m, (r.viol s!"C05 panic@{site}" msg).viol s!"C12 panic@{site}" msg)
+    let r := (r.viol s!"C05 panic@{site}" msg).viol s!"C12 panic@{site}" msg
+    (m, match op with | "send" :: _ => r.viol s!"C11 panic@{site}" msg | _ => r)
   else
   match parseEvents evS with
   | none => (m, r.mdiff "parse.events" s!"{here}: cannot parse events `{evS}`")
@@ -1077,7 +1083,9 @@ def connLine (run : ConnRun) (ln : Nat) (line : String) (r : Report) : ConnRun Ã
         (match hexToBytes hx with
          | some inp =>
            let o := parseRecvOracle oracle
-           let (pbS, outS, restS) := Framing.feedSpec run.gpb inp
+           -- (buffers beyond 2000 bytes go through the bulk-copy form `Framing.feed`, proved equal
+           -- to the byte-at-a-time specification by `feed_eq_spec`; the latter is quadratic here)
+           let (pbS, outS, restS) := if inp.length > 2000 then Framing.feed run.gpb inp else Framing.feedSpec run.gpb inp
            let specFrame := match outS with
              | none => "none"
              | some .error => "err"
